@@ -42,6 +42,11 @@ func genMux(seed uint64, n int, maxOps int, demux bool, emit func(interface{})) 
 			emit(sc)
 			continue
 		}
+		if s%12 == 3 {
+			genMuxPMTBoundary(r, &sc, s/12)
+			emit(sc)
+			continue
+		}
 		nops := r.rangeInt(3, maxOps)
 		var live []int // pids as addressed in the scenario (explicit or -k)
 		autoN := 0
@@ -102,16 +107,49 @@ func genMux(seed uint64, n int, maxOps int, demux bool, emit func(interface{})) 
 				op.Len = boundaryLen(r, hdr, af, false)
 				if bigOnce && bigLeft > 0 && (r.intn(6) == 0 || i >= nops-3) {
 					h := pesHeaderLen(hdr) - 6
-					op.Len = r.pick(65535-h-1, 65535-h, 65535-h+1, 65535-h-3, 65535, 65536, 70000)
+					// around the limit of payload + optional header (65535-h) and of the payload alone (65535): in between, a sum kept in
+					// 16 bits wraps to 1..h-1
+					op.Len = r.pick(65535-h-1, 65535-h, 65535-h+1, 65535-h+2, 65535-h-3, 65534, 65535, 65535, 65536, 70000)
+					if bigLeft == 2 { // the first of them: payload alone within 16 bits, payload + optional header beyond, length bounded
+						if hdr == "none" || hdr == "bare" {
+							hdr = r.pickS("pts", "ptsdts", "full")
+							op.Hdr = hdr
+						}
+						op.Len = r.pick(65535, 65534, 65535-(pesHeaderLen(hdr)-6)+2)
+						op.SID = r.pick(0xc0, 0xbd, 0xfd)
+					} else if hdr != "none" {
+						op.SID = r.pick(0xc0, 0xbd, 0xfd, 0xe0) // PES_packet_length is only bounded for non-video stream ids
+					}
 					bigLeft--
-				}
-				if hdr != "none" && r.intn(3) == 0 {
+				} else if hdr != "none" && r.intn(3) == 0 {
 					op.SID = r.pick(0xc0, 0xe0, 0xbd, 0xfd, 0xc5)
 				}
 				sc.Ops = append(sc.Ops, op)
 			}
 		}
 		emit(sc)
+	}
+}
+
+// genMuxPMTBoundary: the PMT grows to 2 bytes under, 1 under, exactly, 1 over and 2 over what one packet holds (PMT data of 4 + sum(5 +
+// descriptors) = 171 bytes fits exactly: pointer 1 + header 3 + syntax 5 + data + CRC 4 = 184), tables are written (or refused), the PMT
+// shrinks again and tables and data follow: counters and versions around emissions that are refused by a hair
+func genMuxPMTBoundary(r *rng, sc *muxScenario, k int) {
+	n := r.rangeInt(1, 6) // plain streams
+	sc.Ops = append(sc.Ops, muxOp{Op: "add", PID: 0x100, ST: 27, DK: "none"}, muxOp{Op: "setpcr", PID: 0x100})
+	for i := 1; i < n; i++ {
+		sc.Ops = append(sc.Ops, muxOp{Op: "add", PID: 0x100 + i, ST: 15, DK: "none"})
+	}
+	sc.Ops = append(sc.Ops, muxOp{Op: "tables"}, muxOp{Op: "data", PID: 0x100, Len: r.rangeInt(1, 400), Hdr: "pts", AF: "none"})
+	targets := []int{169, 170, 171, 172, 173, 174, 180}
+	for j := 0; j < 4; j++ {
+		t := targets[(k+j*3+r.intn(2))%len(targets)]
+		c := t - 4 - 5*n - 5 - 2 // content bytes of the user-defined descriptor of one more stream
+		sc.Ops = append(sc.Ops, muxOp{Op: "add", PID: 0x180, ST: 6, DK: fmt.Sprintf("ud%d", c)})
+		sc.Ops = append(sc.Ops, muxOp{Op: r.pickS("tables", "data"), PID: 0x100, Len: r.rangeInt(1, 300), Hdr: "pts", AF: r.pickS("none", "rai")})
+		sc.Ops = append(sc.Ops, muxOp{Op: "data", PID: 0x100, Len: r.rangeInt(1, 300), Hdr: "pts", AF: "none"})
+		sc.Ops = append(sc.Ops, muxOp{Op: "remove", PID: 0x180})
+		sc.Ops = append(sc.Ops, muxOp{Op: "tables"}, muxOp{Op: "data", PID: 0x100, Len: r.rangeInt(1, 300), Hdr: "pts", AF: "rai"})
 	}
 }
 
